@@ -63,7 +63,7 @@ func H_kq_dirstep() {
 	got = verifCollect(wt, got)
 	verifExpect(got, nil, "entries that existed when the watch was added are never reported as Create")
 	aWatched := ka == nFile || ka == nDir
-	op := verifChoose("op", 10)
+	op := verifChoose("op", 11)
 	var want []verifKqExp
 	switch op {
 	case 0: // create a new entry
@@ -126,6 +126,14 @@ func H_kq_dirstep() {
 		verifRaise("/d/a", unix.NOTE_ATTRIB)
 		want = append(want, verifKqExp{base + "/c", Create}, verifKqExp{base + "/a", Chmod})
 		verifReach("kq-dir-create-then-chmod")
+	case 10: // written, then renamed, before the reader drains: one kevent carries both notes
+		verifAssume(ka == nFile)
+		verifNodeOf2("/d/c").kind = nFile
+		verifNodeOf2("/d/a").kind = nAbsent
+		verifRaise("/d/a", unix.NOTE_WRITE|unix.NOTE_RENAME)
+		verifRaise("/d", unix.NOTE_WRITE)
+		want = append(want, verifKqExp{base + "/a", Write | Rename}, verifKqExp{base + "/c", Create})
+		verifReach("kq-dir-write-rename-coalesced")
 	case 6: // the directory changes but no entry is new (e.g. an unwatched entry went away)
 		verifRaise("/d", unix.NOTE_WRITE)
 		verifReach("kq-dir-touch")
@@ -201,6 +209,7 @@ func H_kq_nested() {
 	verifAddNode("/d/a", nDir, "")
 	verifAddNode("/d/a/x", nFile, "")
 	verifAddNode("/d/a/y", nAbsent, "")
+	verifAddNode("/d/a/p", [...]int{nAbsent, nFifo}[verifChoose("kind-p", 2)], "") // seen, but not watchable
 	wt, _ := verifKqNew()
 	first := verifChoose("order", 2)
 	if first == 0 {
@@ -225,6 +234,10 @@ func H_kq_nested() {
 		got = verifCollect(wt, nil)
 		verifExpect(got, nil, "an entry that existed (and was already watched) when its directory was added is never reported as Create")
 	}
+	// ... and then the sub-directory changes again: what it reported, or held when added, stays known
+	verifRaise("/d/a", unix.NOTE_WRITE)
+	got = verifCollect(wt, nil)
+	verifExpect(got, nil, "a change of the outer directory must not make the inner directory report its entries again")
 	verifAssert(wt.Close() == nil, "Close")
 	verifReach("kq-nested")
 }
